@@ -130,7 +130,7 @@ def corr_objects_x(check, tier):
     per_class = 4 if tier == 'quick' else 10
     prots = {False: XmlDocument(), True: XmlDocument(validator='soft')}
     for ui in range(n_univ):
-        desc = X.gen_universe(rng, n_classes=rng.randint(2, 6), namespaces=('urn:t', 'urn:u') if ui % 2 else ('urn:t',))
+        desc = X.gen_universe(rng, n_classes=rng.randint(2, 6), namespaces=('urn:t', 'urn:u', 'urn:v') if ui % 3 else ('urn:t',))
         classes = X.build_classes(desc)
         imports = IMPORTS_X + 'Definition UU : universe := %s.\n' % X.g_universe(desc, classes)
         enc_cases, dec_cases = [], []
@@ -166,6 +166,18 @@ def corr_objects_x(check, tier):
                                           'universe %d class %d soft=%s %s: %s -> %r' % (
                                               ui, cid, soft, what, etree.tostring(doc).decode()[:300], d)))
                         check.count(('xdec', soft, etree.tostring(doc)))
+                        if what == 'as written' and not soft:
+                            # direct oracle, independent reader: the document follows the (would-be) schema, every member
+                            # qualified by the namespace of the class that declares it, and denotes the value
+                            want = X.norm_value(desc, ('ref', cid), v)
+                            try:
+                                got = X.norm_value(desc, ('ref', cid), X.ref_decode(desc, classes, ('ref', cid), cls, doc, None))
+                                if not X.eq_value(got, want):
+                                    obj_fail(check, desc, cid, v, 'ref-decoder', 'get_object_as_xml wrote %s for %r; a schema-directed reader gets %r' % (
+                                        etree.tostring(doc).decode()[:300], want, got))
+                            except X.DecodeError as e:
+                                obj_fail(check, desc, cid, v, 'ref-decoder', 'get_object_as_xml wrote %s for %r, which does not follow the schema: %s' % (
+                                    etree.tostring(doc).decode()[:300], want, e))
                         if what == 'as written':          # direct oracle: the property itself on this document
                             want = X.norm_value(desc, ('ref', cid), v)
                             if not (d[0] == 'ok' and X.eq_value(d[1], want)):
@@ -379,7 +391,7 @@ def corr_calls(check, tier):
     from lxml import etree
     from spyne.server.wsgi import WsgiApplication
     rng = check.rng
-    n_worlds = 8 if tier == 'quick' else 40
+    n_worlds = 6 if tier == 'quick' else 40
     per_method = 2 if tier == 'quick' else 5
     for wi in range(n_worlds):
         w = World(rng)
@@ -709,6 +721,14 @@ def replay(check, path):
         else:
             tree = reparse(o[1])
             want = X.norm_value(desc, ('ref', cid), v)
+            try:
+                got = X.norm_value(desc, ('ref', cid), X.ref_decode(desc, classes, ('ref', cid), classes[cid], tree, None))
+                print('schema-directed reader: %r' % (got,))
+                if not X.eq_value(got, want):
+                    obj_fail(check, desc, cid, v, 'ref-decoder', 'a schema-directed reader gets %r from %s, sent %r' % (
+                        got, etree.tostring(tree).decode()[:300], want))
+            except X.DecodeError as e:
+                obj_fail(check, desc, cid, v, 'ref-decoder', '%s does not follow the schema: %s' % (etree.tostring(tree).decode()[:300], e))
             for soft in (False, True):
                 d = observe(XmlDocument(validator='soft' if soft else None).from_element, None, classes[cid], tree)
                 if d[0] == 'ok':
